@@ -580,6 +580,11 @@ func (bs *blockState) applySpec(c *Contract, display string, args []Val, rts []t
 	if c.Trusted && c.Kind == "func" {
 		ex.trusted["contract of "+display+" is assumed (trusted), body not verified"] = true
 	}
+	for _, e := range c.Ensures {
+		if e.Assumed {
+			ex.trusted["assumed clause of "+display+": "+e.Label] = true
+		}
+	}
 	pre := &Env{Vars: map[string]Term{}, P: ex.P}
 	names := specParamNames(c, fn, len(args))
 	for i, a := range args {
@@ -642,6 +647,38 @@ func (bs *blockState) applySpec(c *Contract, display string, args []Val, rts []t
 		nv := ex.fresh(g, so)
 		bs.st.glob[g] = nv
 		post.Vars[g] = nv
+	}
+	// out-parameters of library functions: the pointee becomes an unconstrained value of its type
+	for _, w := range c.Writes {
+		for i, n := range names {
+			if n != w || i >= len(args) {
+				continue
+			}
+			var ptr *Ptr
+			var pt types.Type
+			if bx, ok := args[i].(*Boxed); ok {
+				if pp, ok := bx.val.(*Ptr); ok {
+					ptr, pt = pp, bx.typ
+				}
+			} else if pp, ok := args[i].(*Ptr); ok {
+				ptr = pp
+			}
+			if ptr == nil || ptr.cell == nil {
+				ex.unsup(pos, "%s writes through %s, which is not a pointer to a local", display, w)
+				continue
+			}
+			so := ptr.cell.sort
+			if len(ptr.path) > 0 {
+				so = fr.pathSort(ptr.cell.sort, ptr.path)
+			}
+			f := ex.fresh("out_"+w, so)
+			if pt != nil {
+				if r := ex.P.rangeFact(f, pt); r.S != "true" {
+					ex.emit("(assert %s)", r.S)
+				}
+			}
+			bs.store(ptr, f, pos)
+		}
 	}
 	rnames := resultNames(c, fn, rts)
 	var results []Val
